@@ -1,6 +1,6 @@
 (** C03 - a stop answer ends the work; the fail-fast result is the first keep-going report. *)
 From Deserr Require Import Base Pointer Kinds Value Prog Utf8 Scalars Types Deser Monitors.
-From Deserr.proofs Require Import ProgProofs.
+From Deserr.proofs Require Import ProgProofs LeavesProofs C14Proofs.
 
 (** Causality, for every target type / payload / location / starting state and any two answer
     scripts that agree on the answers to calls 0..k-1 (pointwise: no extensionality): either the
@@ -18,6 +18,17 @@ Theorem c03_causal : forall t a v l (sc1 sc2 : N -> bool) (k : N) (s : list call
    /\ firstn (S (N.to_nat k)) (snd (run sc1 p s)) = firstn (S (N.to_nat k)) (snd (run sc2 p s))).
 Proof. intros t a v l sc1 sc2 k s H. apply (run_causal (deser t a v l) sc1 sc2 k s H). Qed.
 
+(** The first call made to the error type (position and arguments) does not depend on the
+    answers at all: an always-stop error type is handed exactly the first report of the
+    keep-going run. *)
+Theorem c03_failfast_first : forall t a v l sc1 sc2 s,
+  first_created (ext_of sc1 (deser t a v l) s) (N.of_nat (List.length s))
+  = first_created (ext_of sc2 (deser t a v l) s) (N.of_nat (List.length s)).
+Proof. exact deser_first_created. Qed.
+
+Check c03_failfast_first : forall t a v l sc1 sc2 s,
+  first_created (ext_of sc1 (deser t a v l) s) (N.of_nat (List.length s))
+  = first_created (ext_of sc2 (deser t a v l) s) (N.of_nat (List.length s)).
 Check c03_causal : forall t a v l (sc1 sc2 : N -> bool) (k : N) (s : list call),
   (forall i, (i < k)%N -> sc1 i = sc2 i) ->
   let p := deser t a v l in
@@ -27,3 +38,4 @@ Check c03_causal : forall t a v l (sc1 sc2 : N -> bool) (k : N) (s : list call),
   ((k < N.of_nat (List.length (snd (run sc1 p s))))%N /\ (k < N.of_nat (List.length (snd (run sc2 p s))))%N
    /\ firstn (S (N.to_nat k)) (snd (run sc1 p s)) = firstn (S (N.to_nat k)) (snd (run sc2 p s))).
 Print Assumptions c03_causal.
+Print Assumptions c03_failfast_first.
